@@ -186,6 +186,22 @@ def job_closed(ctx, iq, ia):
             B2 = _arr(AngularRate(gyr=G[:2].copy(), q0=q0.copy(), Dt=dt).Q)
             _judge_rows(ctx, _rowdist(B2, ref[:2]), np.array([4.0, 5.0]) * TOL_STEP,
                         'AngularRate(gyr, q0, Dt).Q row n = q0 (x) axis-angle(w n dt)', key + ' samples=2', 'closed.batch(Dt)')
+            # every short record length (a record of exactly 3 samples is a square 3-by-3 array), and the accepted spellings of the method name
+            for nn in (3, 4, 5):
+                Bn = _arr(AngularRate(gyr=G[:nn].copy(), q0=q0.copy(), Dt=dt).Q)
+                _judge_rows(ctx, _rowdist(Bn, ref[:nn]), (np.arange(nn) + 4) * TOL_STEP,
+                            'AngularRate(gyr, q0, Dt).Q row n = q0 (x) axis-angle(w n dt)', key + f' samples={nn}', 'closed.batch(Dt)')
+            for sp in ('Closed', 'CLOSED'):
+                try:
+                    qs = _arr(AngularRate().update(q0.copy(), w.copy(), method=sp, dt=dt))
+                    Bs = _arr(AngularRate(gyr=G[:4].copy(), q0=q0.copy(), Dt=dt, method=sp).Q)
+                except (ValueError, TypeError):
+                    ctx.outcome(('spelling-refused', sp))
+                    continue
+                _judge_rows(ctx, _rowdist(np.array([q0, qs]) if qs.shape == (4,) else np.zeros((2, 1)), ref[:2]), np.array([4.0, 5.0]) * TOL_STEP,
+                            f"AngularRate.update(method='{sp}') = the closed form (a spelling that is accepted selects that method)", key, 'closed.spelling', first_row=1)
+                _judge_rows(ctx, _rowdist(Bs, ref[:4]), (np.arange(4) + 4) * TOL_STEP,
+                            f"AngularRate(gyr, q0, Dt, method='{sp}').Q = the closed form", key, 'closed.spelling')
             M = min(N, 50)
             B3 = _arr(AngularRate(gyr=G[:M + 1].copy(), q0=q0.copy(), frequency=1.0 / dt).Q)
             _judge_rows(ctx, _rowdist(B3, ref[:M + 1]), (np.arange(M + 1) + 4) * TOL_STEP,
